@@ -442,3 +442,33 @@ Proof.
     + destruct (fw_run (fw_write_buf s p) rest) as [l|] eqn:Er; [|discriminate].
       injection H as <-. rewrite <- Hidx. apply (IH _ _ Er).
 Qed.
+
+(* ------------------------------------------------------------------------------------------ *)
+(* compressed streamed sends: flateWriter hands its segments to the same frame callback as splitReader, with the
+   same index sequence - so the frames are those of `split_reader` run on the segments *)
+Definition seg_reads (segs : list (nat * bool * list N)) : list (list N * bool) :=
+  map (fun s => (snd s, snd (fst s))) segs.
+
+Lemma reads_payload_init init lst :
+  Forall (fun x : nat * bool * list N => snd (fst x) = false) init -> snd (fst lst) = true ->
+  reads_payload (seg_reads (init ++ [lst])) = concat (map snd (init ++ [lst]))
+  /\ reads_terminated (seg_reads (init ++ [lst])) = true.
+Proof.
+  intros Hinit Hl. induction init as [|[[i e] b] init IH]; cbn.
+  - destruct lst as [[i e] b]. cbn in *. subst e. cbn. rewrite !app_nil_r. split; reflexivity.
+  - inversion Hinit as [|? ? He Hinit']; subst. cbn in He. subst e.
+    destruct (IH Hinit') as (IH1 & IH2). unfold seg_reads in *. cbn. rewrite IH1, IH2. split; reflexivity.
+Qed.
+
+Theorem compressed_stream_one_message server pmd op writes segs keys :
+  (op = 1 \/ op = 2) ->
+  fw_run {| fw_index := 0; fw_buffers := [] |} writes = Some segs ->
+  exists k, group_messages None (file_frames server pmd op 0 (seg_reads segs) keys)
+            = Some [WData op pmd (strip_tail (concat writes)) k].
+Proof.
+  intros Hop Hrun.
+  destruct (fw_run_shape _ _ _ Hrun) as (_ & init & lst & -> & Hl & Hinit).
+  destruct (reads_payload_init init lst Hinit Hl) as (Hp & Ht).
+  destruct (file_frames_one_message (fun _ => true) (fun _ _ => []) server pmd op (seg_reads (init ++ [lst])) keys Hop Ht) as (k & Hk).
+  exists k. rewrite Hk. rewrite Hp. rewrite (fw_run_concat _ _ _ Hrun). reflexivity.
+Qed.
